@@ -600,6 +600,23 @@ def run(ctx) -> None:
                     index += 1
                     if ctx.mine(index):
                         slow_reply_case(ctx, version, trigger, seconds)
+        from .. import harness as _harness
+
+        for extra in _harness.unknown_options():
+            _harness.CONFIG_EXTRA.clear()
+            _harness.CONFIG_EXTRA.update(extra)
+            try:
+                for version in ("1.5", "2.1"):
+                    for trigger in STEP_TRIGGERS:
+                        if trigger in ("flush", "presentation-request") and not version.startswith("2"):
+                            continue
+                        index += 1
+                        if ctx.mine(index):
+                            for seconds in (4, 31, 301, 3601):
+                                slow_reply_case(ctx, version, trigger, seconds)
+                            arun(interrupted_step_case(ctx, version, trigger, "cancel", "completes"))
+            finally:
+                _harness.CONFIG_EXTRA.clear()
         texts = ["Grüße 21.5°C", "日本語", "😀", "a;b", " x ", "plain", "\x00", "ß" * 300]
         for i in range(ctx.pick(40, 800) // ctx.shard_count + 1):
             version = VERSIONS[i % 5]
